@@ -173,7 +173,88 @@ frequency_moment = Contract(
     callees={e_2d.target: e_2d},
 )
 
-CONTRACTS = [direction_step, e_2d, frequency_moment]
+# ---- integral parameters: Hm0 = 4 sqrt(m0), Tm01 = m0/m1, Tm02 = sqrt(m0/m2)
+def _shape_p(mk, ds):
+    E = mk.st.deref(ds.fields["vars"][NAME_E]).fields["arr"]
+    return (E.shape[0],)
+
+
+frequency_moment.options["result"] = _result_xa("moment", (P,), _shape_p)
+
+
+def _p_band(kind, fmax_inf=False):
+    def p(mk):
+        return {"self": spectrum(mk, kind, moments=False), "fmin": mk.real("fmin"), "fmax": T.INF if fmax_inf else mk.real("fmax")}
+    return p
+
+
+BAND_INST = [(f"{k},{'fmax=inf' if inf else 'band'}", _p_band(k, inf)) for k in ("1d", "2d") for inf in (False, True)]
+
+
+def _param_post(formula):
+    def post(a, r):
+        sp = Spec(a.self)
+        val, isnan = result_values(r)
+        m = lambda n, p: moment_spec(sp, p, n, a.fmin, a.fmax)
+        return forall(0, sp.np_, lambda p: formula(val(p), isnan(p), lambda n: m(n, p)), "p")
+    return post
+
+
+def _wit_band():
+    s1, s2 = _wit_spectra()
+    out = []
+    for s, k in ((s1, "1d"), (s2, "2d")):
+        for fmin, fmax in ((0.0, 0.5), (0.05, 0.31), (0.04, float("inf"))):
+            out.append((f"{k},{'fmax=inf' if fmax == float('inf') else 'band'}", {"self": s, "fmin": fmin, "fmax": fmax}))
+    return [(lambda w=w: w) for w in out]
+
+
+def _band_contract(name, formula, label=None):
+    return Contract(S + "WaveSpectrum." + name, instances=BAND_INST, requires=REQ, ensures=[("value", _param_post(formula))],
+                    native=_native, witness=_wit_band(), callees={frequency_moment.target: frequency_moment, e_2d.target: e_2d}, label=label)
+
+
+def _safe_div(x, y):
+    if is_symbolic(x, y):
+        return x / y
+    return x / y if y != 0 else float("nan")
+
+
+m0_c = _band_contract("m0", lambda v, n, m: eq(v, m(0), rtol=1e-9, atol=1e-12))
+m1_c = _band_contract("m1", lambda v, n, m: eq(v, m(1), rtol=1e-9, atol=1e-12))
+m2_c = _band_contract("m2", lambda v, n, m: eq(v, m(2), rtol=1e-9, atol=1e-12))
+hm0_c = _band_contract("hm0", lambda v, n, m: implies(ge(m(0), 0), eq(v, 4 * sqrt(m(0)), rtol=1e-9, atol=1e-12)))
+tm01_c = _band_contract("tm01", lambda v, n, m: implies(Not(eq(m(1), 0, rtol=0, atol=0)), eq(v, _safe_div(m(0), m(1)), rtol=1e-9, atol=1e-12)))
+tm02_c = _band_contract("tm02", lambda v, n, m: implies(And(gt(m(2), 0), ge(m(0), 0)), eq(v, sqrt(_safe_div(m(0), m(2))), rtol=1e-9, atol=1e-12)))
+
+
+def _p_plain(kind):
+    return lambda mk: {"self": spectrum(mk, kind, moments=False)}
+
+
+def _alias(name, formula):
+    import math
+    inf = float("inf")
+
+    def post(a, r):
+        sp = Spec(a.self)
+        val, isnan = result_values(r)
+        fmax = T.INF if hasattr(a.self, "_o") else inf
+        m = lambda n, p: moment_spec(sp, p, n, 0, fmax)
+        return forall(0, sp.np_, lambda p: formula(val(p), isnan(p), lambda n: m(n, p)), "p")
+    s1, s2 = None, None
+    return Contract(S + "WaveSpectrum." + name, instances=[("1d", _p_plain("1d")), ("2d", _p_plain("2d"))], requires=REQ,
+                    ensures=[("default_band_value", post)], native=_native,
+                    witness=[lambda: ("1d", {"self": _wit_spectra()[0]}), lambda: ("2d", {"self": _wit_spectra()[1]})],
+                    callees={frequency_moment.target: frequency_moment, e_2d.target: e_2d},
+                    options={"native_call": lambda kw, inst, name=name: getattr(kw["self"], name)})
+
+
+swh_c = _alias("significant_waveheight", lambda v, n, m: implies(ge(m(0), 0), eq(v, 4 * sqrt(m(0)), rtol=1e-9, atol=1e-12)))
+mp_c = _alias("mean_period", lambda v, n, m: implies(Not(eq(m(1), 0, rtol=0, atol=0)), eq(v, _safe_div(m(0), m(1)), rtol=1e-9, atol=1e-12)))
+zcp_c = _alias("zero_crossing_period", lambda v, n, m: implies(And(gt(m(2), 0), ge(m(0), 0)), eq(v, sqrt(_safe_div(m(0), m(2))), rtol=1e-9, atol=1e-12)))
+
+CONTRACTS = [direction_step, e_2d, frequency_moment, m0_c, m1_c, m2_c, hm0_c, tm01_c, tm02_c, swh_c, mp_c, zcp_c]
 TRUSTED = ["xarray library contracts of pyvc/models/xr.py (alignment by dimension name, skipna sums, trapezoid integrate, lazy boolean isel)",
            "every real other than the literal np.inf is finite"]
 EXPLANATION = "moments and integral parameters proved equal to their defining trapezoid sums for all grids, bands, NaN placements and batch sizes"
